@@ -21,14 +21,20 @@ Flows == DOMAIN Calls
 Transport == {"500", "400", "reset", "stall", "empty", "truncated", "nojson", "huge"}
 TokenBody == {"noidtoken", "noaccesstoken", "aud_number", "aud_object", "azp_number", "azp_list_numbers", "groups_object", "email_number",
               "exp_string", "ev_string", "sub_number", "idtoken_garbage"}
-Kinds(call) == Transport \cup (IF call \in {"token_code", "token_refresh"} THEN TokenBody ELSE {})
+\* members of the token response: optional ones missing / null / of another JSON type, alone and combined with a missing id_token
+OptShapes  == {"noexpires", "expires_zero", "expires_null", "expires_string", "norefresh", "refresh_null", "notokentype"}
+NoIDShapes == {"noidtoken_noexpires", "idtoken_null_noexpires", "idtoken_null", "idtoken_number", "idtoken_empty"}
+BadAccess  == {"access_null", "access_number"}
+Kinds(call) == Transport \cup (IF call \in {"token_code", "token_refresh"} THEN TokenBody \cup OptShapes \cup NoIDShapes \cup BadAccess ELSE {})
 
 \* display claims the code documents as coerced to text: a session with the coerced text is an allowed outcome
 Coerced == {"groups_object", "email_number", "sub_number"}
 \* an ID token is optional in a refresh response (OIDC Core 12.2): extending the session with the new access token is allowed
 \* the oversized body is syntactically valid JSON without any known claim: for the profile endpoint that is simply a profile
 \* without the claim (a legitimate answer); for the token and key endpoints it lacks the mandatory members
-Tolerated(flow, call, kind) == kind \in Coerced \/ (call = "token_refresh" /\ kind = "noidtoken") \/ (call = "userinfo" /\ kind = "huge")
+\* optional members may be absent or unusable: the answer stays usable (what remains required: no crash, the proxy keeps working)
+Tolerated(flow, call, kind) == \/ kind \in Coerced \/ (call = "token_refresh" /\ kind \in {"noidtoken"} \cup NoIDShapes) \/ (call = "userinfo" /\ kind = "huge")
+                               \/ kind \in OptShapes
 
 VARIABLE c
 Init == \E f \in Flows : \E call \in Calls[f] : \E k \in Kinds(call), l \in Lacks(call) :
